@@ -71,7 +71,7 @@ def run_case(spec, ctx):
             ctx.violation("outside-boundary" if bdry else "outside",
                           (f"{who}|{_pathclass(path)}" if "depproduct-extparams" not in getattr(out, "tag", "")
                            else f"{who}|depproduct-extparams-k2+")
-                          + ("+touching" if "+touching" in getattr(out, "tag", "") else ""),
+                          + (("+touching:" + _contact_of(E, env, bad, t)) if "+touching" in getattr(out, "tag", "") else ""),
                           f"{c['kind']}: {bad.sum()} of {len(st)} returned rows are not "
                           f"{'on the boundary' if bdry else 'in the domain'} (tol {t:.2g}), e.g. "
                           f"{ {kk: np.round(v[i], 6).tolist() for kk, v in env.items()} }")
@@ -84,6 +84,18 @@ def run_case(spec, ctx):
     nontrivial = (not geo.is_plain(spec)) and close > 0
     return {"nontrivial": bool(nontrivial), "classes": classes,
             "summary": {"calls": len(out.calls), "judged": judged, "close": close, "outside": outside}}
+
+
+def _contact_of(E, env, bad, t):
+    """operation joining the two operand boundaries a wrongly returned row lies on (D21 contact sets)."""
+    for i in np.where(bad)[0][:20]:
+        try:
+            op = geo.contact_op(E, {kk: v[[i]] for kk, v in env.items()}, t)
+        except Exception:      # noqa: BLE001 - classification only
+            op = None
+        if op is None:
+            return "off-contact"
+    return op.split("+")[0] if op else "off-contact"
 
 
 def _pathclass(path):
